@@ -379,7 +379,11 @@ func NewReader(r io.Reader, b int) (*Reader, error) {
 func (r *Reader) Read() (f feat.Feature, err error) {
 	line, err := r.r.ReadBytes('\n')
 	if err != nil {
-		return
+		if err != io.EOF || len(line) == 0 {
+			return
+		}
+		// The last line is not newline terminated.
+		err = nil
 	}
 	r.line++
 	line = bytes.TrimSpace(line)
